@@ -81,7 +81,13 @@ def run(tier, rep):
     # (1b) accepted names: every published name, every dispatch literal, every proper prefix/suffix variant
     acc = {}
     for cat, pub, lits in (('bkg', ls_bkg, dl_bkg), ('dbd', ls_dbd, dl_dbd)):
-        cand = sorted(set(pub) | set(lits) | set(rd_bkg if cat == 'bkg' else rd_dbd))
+        # names nobody publishes and no dispatch entry matches: daughters that only appear inside chains, common sources the
+        # library does not have, names of the other category, case variants, truncations, junk - all must be refused
+        other = ls_dbd if cat == 'bkg' else ls_bkg
+        probes = ['Po212', 'Sc48', 'Nb96', 'At214', 'Tl210', 'Ba137m', 'Pb207m', 'Co57', 'Ba133', 'Xx999', 'Zz', 'x', '0', 'co60', 'MO100', ' Co60', 'Co 60', 'Co', 'Mo1', 'Bi21', 'background', 'dbd']
+        probes += [n for n in other if not any(n.startswith(l) for l in lits)][:12]
+        probes = [n for n in probes if n not in pub and not any(n.startswith(l) for l in lits)]
+        cand = sorted(set(pub) | set(lits) | set(rd_bkg if cat == 'bkg' else rd_dbd) | set(probes))
         r = subprocess.run([exe, 'accept', cat], input='\n'.join(cand) + '\n', stdout=subprocess.PIPE, stderr=subprocess.PIPE, text=True, timeout=900)
         if r.returncode != 0:
             raise SystemExit('HARNESS-ERROR: c05 accept exited %d' % r.returncode)
@@ -97,6 +103,12 @@ def run(tier, rep):
                 rep.violation('accept:%s:%s:published-refused' % (cat, n), "published %s name '%s' does not initialise and generate (init=%s, particles=%s)" % (cat, n, x['init'], x['particles']))
             elif x['label'] != n:
                 rep.violation('accept:%s:%s:label' % (cat, n), "event of '%s' is labelled '%s'" % (n, x['label']))
+        for n in probes:
+            x = acc[(cat, n)]
+            if 'crashed' in x:
+                rep.violation('accept:%s:%s:crash' % (cat, n.strip() or 'blank'), "unknown name '%s' crashes: %s" % (n, x['crashed']))
+            elif x['init']:
+                rep.violation('accept:%s:%s:unknown-accepted' % (cat, n.strip().replace(' ', '_') or 'blank'), "the %s name '%s' is published nowhere and matches no dispatch entry, but initialises (and yields %d particles)" % (cat, n, x['particles']))
         for l in lits:
             x = acc[(cat, l)]
             generates = ('crashed' not in x) and x['init'] and x['particles'] >= 1
@@ -135,7 +147,7 @@ def run(tier, rep):
         'evaluations': execs + evals, 'distinct_nontrivial': distinct, 'scheme_executions': execs, 'names_checked': len(acc),
         'prefix_pairs': ['%s<%s' % p for p in prefix_pairs], 'exhaustive': True, 'samples': samples,
         'rule': 'finite and complete: names of README appendix 1 (both lists), of the two .lis files (parsed independently and through the library), and the '
-                'string literals of the dispatch in genbbsub.cc; every name of the union is initialised and shot; the three sets must agree per category; the '
+                'string literals of the dispatch in genbbsub.cc, plus ~30 names that are published nowhere and match no dispatch entry (must be refused); every name of the union is initialised and shot; the three sets must agree per category; the '
                 'README mode table, dbd_modes.lis and dbd_modes() must agree; for each of the 69 published background names the event obtained through '
                 'decay0_generator equals (bit for bit, same deviates consumed) the event obtained by calling the nuclide\'s own scheme function plus exactly '
                 'the documented daughter, for the default stream and every single forced deviate position (<=80) over a 15-value grid, every pair of the first five positions%s, %d streams; '
